@@ -290,6 +290,30 @@ def check_listing(text, M, case, golden=None, path=None):
             return
         M.violation("C18.listing", {"what": "token formatter parse raised", "error": repr(e)[:200]}, case)
         return
+    if M.counters["listings_compared"] % 4 == 1 and "\r" not in text.replace("\r\n", "") and not observe.os.path.exists(text):
+        # the way scripts/generate_tokens.py reads a document: TokenScanner(path).  Same listing as from the string.
+        try:
+            data = text.encode("utf8")
+        except UnicodeEncodeError:
+            data = None
+        if data is not None:
+            from gherkin.token_scanner import TokenScanner
+            path = observe.os.path.abspath("c18-listing.feature")
+            with open(path, "wb") as fh:
+                fh.write(data)
+            try:
+                try:
+                    from_file, st_file = Parser(TokenFormatterBuilder()).parse(TokenScanner(path)), "ok"
+                except ParserError:
+                    from_file, st_file = None, "rejected"
+                M.count("listings_from_files_compared")
+                if (st_file, from_file) != (status, listing):
+                    M.violation("C18.listing", {"what": "token listing of a document read through TokenScanner(path) differs from the listing of the same text given as a string",
+                                                "string": [status, short(listing, 160)], "file": [st_file, short(from_file, 160)]}, case)
+            except Exception as e:
+                M.violation("C18.listing", {"what": "token formatter parse of TokenScanner(path) raised", "error": repr(e)[:200]}, case)
+            finally:
+                observe.os.remove(path)
     if golden is not None:
         if status != "ok" or listing != golden.rstrip("\n"):
             M.violation("C18.listing", {"what": "token listing differs from the golden .tokens file", "path": path,
